@@ -14,7 +14,7 @@ CONSTANTS Mode, NInputs, Features, CtorIxs, FieldCounts, MaxCase
 Tx1 == [i \in 1..32 |-> 1]
 Tx2 == [i \in 1..32 |-> IF i = 32 THEN 2 ELSE 1]
 Tx3 == [i \in 1..32 |-> IF i = 1 THEN 0 ELSE 255]
-RefPool == {[txid |-> t, index |-> ix] : t \in {Tx1, Tx2, Tx3}, ix \in {2, 10, 256}}   \* numeric order 2 < 10 < 256; as decimal text "10" < "2" < "256"; by low byte 256 < 2 < 10
+RefPool == {[txid |-> t, index |-> ix] : t \in {Tx1, Tx2, Tx3}, ix \in {2, 10, 256, 65538}}   \* numeric order 2 < 10 < 256 < 65538; as decimal text "10" < "2" < "256"; by low byte 256 < 2 = 65538 < 10; 65538 = 2 in 16 bits
 InputNames == <<"zeta", "alpha", "mid", "beta">>          \* source order is not name order
 \* (a few of the items carry the field-less alternative 1 or the unit value instead of a case with a field)
 RedOf(i) == IF i \in {2, 12} THEN CtorE("Var", "B", <<>>, Absent) ELSE IF i = 21 THEN [k |-> "unit"]
